@@ -843,7 +843,13 @@ def _(M, a, c):
     if fn == 'ptr_eq': return V(a[0]) is V(a[1])
     if fn == 'clone': return V(a[0])
     if fn == 'deref': return Ref([V(a[0]).d['inner']], 0)
+    if fn == 'as_ptr':
+        # an opaque address: distinct live cells have distinct addresses; the numeric value itself must not reach an output
+        o = V(a[0]); PTR_IDS.setdefault(id(o), (len(PTR_IDS) + 1) * 4096 + 0x7f0000000000); KEEP.append(o)
+        return Int(64, False, PTR_IDS[id(o)])
+    if fn == 'strong_count': raise Unsupported("Rc/Arc::strong_count")
     raise Unsupported("Rc/Arc::" + fn)
+PTR_IDS = {}; KEEP = []
 @model_re(r'^std::sync::Mutex::<.*>::(lock|is_poisoned|into_inner|get_mut)$|^std::sync::Mutex::(lock|is_poisoned|into_inner|get_mut)$')
 def _(M, a, c):
     fn = norm_name(c).split('::')[-1]; m = V(a[0])
@@ -894,3 +900,83 @@ def _(M, a, c):
         y = deref_all(a[1])
         return Int(x.w, False, (x.v - y.v) if M.branch(M.binop('Ge', x, y)) else (y.v - x.v))
     raise Unsupported("int method " + fn)
+
+# ------------------------------------------------------------------ derived Debug ({:?}) of the front end's types, by structure
+def dbg_str(M, els, quote='"'):
+    out = elems(quote)
+    for e in els:
+        if isinstance(e, Dec) or e.sym(): raise Unsupported("Debug of a symbolic string")
+        out_b = {0x22: b'\\"', 0x5c: b'\\\\', 0x0a: b'\\n', 0x0d: b'\\r', 0x09: b'\\t', 0x00: b'\\0', 0x27: b"'"}.get(e.v)
+        if quote == "'" and e.v == 0x27: out_b = b"\\'"
+        if quote == "'" and e.v == 0x22: out_b = b'"'
+        if out_b is None:
+            out_b = bytes([e.v]) if e.v >= 0x20 and e.v != 0x7f else ('\\u{%x}' % e.v).encode()
+        out += elems(out_b)
+    return out + elems(quote)
+def dbg_char(M, ch):
+    if ch.sym(): raise Unsupported("Debug of a symbolic char")
+    return dbg_str(M, encode_char(M, ch), "'")
+def dbg_loc(M, t):
+    a, b = t.fields
+    if a.sym() or b.sym(): raise Unsupported("Debug of a symbolic location")
+    return elems('(%d, %d)' % (a.v, b.v))
+def dbg_token(M, t):
+    name = ENUMS['Token'][t.variant]
+    if not t.fields: return elems(name)
+    parts = []
+    for f in t.fields:
+        if isinstance(f, Int):
+            if f.sym(): raise Unsupported("Debug of a symbolic integer")
+            parts.append(elems(str(f.v)))
+        elif isinstance(f, Native) and f.kind == 'String': parts.append(dbg_str(M, f.d['b']))
+        elif isinstance(f, Native) and f.kind == 'Vec':
+            inner = []
+            for i, x in enumerate(f.d['b']):
+                if i: inner += elems(', ')
+                inner += dbg_loc(M, x)
+            parts.append(elems('[') + inner + elems(']'))
+        else: raise Unsupported("Debug of token payload")
+    out = elems(name + '(')
+    for i, p in enumerate(parts):
+        if i: out += elems(', ')
+        out += p
+    return out + elems(')')
+def dbg_lexerror(M, e):
+    name = ENUMS['LexError'][e.variant]
+    out = elems(name + '(')
+    for i, f in enumerate(e.fields):
+        if i: out += elems(', ')
+        if isinstance(f, Agg) and f.ty == 'tuple': out += dbg_loc(M, f)
+        elif isinstance(f, Int): out += dbg_char(M, f)
+        elif isinstance(f, Native) and f.kind == 'String': out += dbg_str(M, f.d['b'])
+        else: raise Unsupported("Debug of LexError payload")
+    return out + elems(')')
+def dbg_parse_error(M, e):
+    name = ENUMS['ParseError'][e.variant]; f = e.fields
+    def triple(t): return elems('(') + dbg_loc(M, t.fields[0]) + elems(', ') + dbg_token(M, t.fields[1]) + elems(', ') + dbg_loc(M, t.fields[2]) + elems(')')
+    def strs(v):
+        out = elems('[')
+        for i, s in enumerate(v.d['b']):
+            if i: out += elems(', ')
+            out += dbg_str(M, s.d['b'])
+        return out + elems(']')
+    if name == 'InvalidToken': return elems('InvalidToken { location: ') + dbg_loc(M, f[0]) + elems(' }')
+    if name == 'UnrecognizedEof': return elems('UnrecognizedEof { location: ') + dbg_loc(M, f[0]) + elems(', expected: ') + strs(f[1]) + elems(' }')
+    if name == 'UnrecognizedToken': return elems('UnrecognizedToken { token: ') + triple(f[0]) + elems(', expected: ') + strs(f[1]) + elems(' }')
+    if name == 'ExtraToken': return elems('ExtraToken { token: ') + triple(f[0]) + elems(' }')
+    if name == 'User': return elems('User { error: ') + dbg_lexerror(M, f[0]) + elems(' }')
+    raise Unsupported("Debug of ParseError::" + name)
+_old_render_one = mo.render_one
+def _render_one(M, fa):
+    ty = fa.d['ty']; kind = fa.d['fk']; base = ty.lstrip('&')
+    if kind == 'debug':
+        v = deref_all(fa.d['v'])
+        if base.startswith('ParseError<') or base.startswith('lalrpop_util::ParseError<'): return dbg_parse_error(M, v)
+        if base in ('LexError', 'lexer::LexError'): return dbg_lexerror(M, v)
+        if base == 'Token': return dbg_token(M, v)
+        if base in ('String', 'str'): return dbg_str(M, toelems(v))
+        if base == 'char': return dbg_char(M, v)
+        if base in INT_TY and base != 'char' and isinstance(v, Int) and not v.sym(): return elems(str(v.v))
+        if base == '(usize, usize)': return dbg_loc(M, v)
+    return _old_render_one(M, fa)
+mo.render_one = _render_one
